@@ -16,6 +16,8 @@ func main() {
 		runL1(os.Args[2:])
 	case "l2":
 		runL2(os.Args[2:])
+	case "l3":
+		runL3(os.Args[2:])
 	case "l4":
 		runL4(os.Args[2:])
 	case "l5":
